@@ -62,6 +62,8 @@ pub struct KnownHit {
     pub step: usize,
     /// id of the message whose delivery was not recorded
     pub msg_id: u32,
+    /// the party whose contribution it is
+    pub producer: usize,
     /// the trigger of the known finding C16-dmq-dedup-ignores-sender is present
     pub dedup_trigger: bool,
     /// another party had submitted a copy of this payload before
@@ -94,7 +96,7 @@ pub struct Oracle {
     registrations_seen: usize,
     /// honest signatures delivered before their round opened (buffered), waiting for it:
     /// (message id, producer, entity, signed message, signature, delivery step, junk / copies around)
-    c16_early: Vec<(u32, usize, Entity, String, String, usize, bool)>,
+    c16_early: Vec<(u32, usize, Entity, String, String, usize, bool, bool)>,
     c16_open_seen: BTreeSet<String>,
     c06_epochs_done: BTreeSet<u64>,
     c06_artifacts_done: BTreeSet<String>,
@@ -1223,9 +1225,9 @@ impl Oracle {
         let new_oms: Vec<&crate::db::OpenMessageRow> = oms.iter().filter(|o| !self.c16_open_seen.contains(&o.id)).collect();
         for om in &new_oms {
             let pending = std::mem::take(&mut self.c16_early);
-            for (msg_id, producer, entity, signed_message, signature_hex, delivery_step, foreign_around) in pending {
+            for (msg_id, producer, entity, signed_message, signature_hex, delivery_step, foreign_around, early_dedup_trigger) in pending {
                 if entity.kind() != om.entity.kind() {
-                    self.c16_early.push((msg_id, producer, entity, signed_message, signature_hex, delivery_step, foreign_around));
+                    self.c16_early.push((msg_id, producer, entity, signed_message, signature_hex, delivery_step, foreign_around, early_dedup_trigger));
                     continue;
                 }
                 let message = serde_json::from_str::<ProtocolMessage>(&om.protocol_message_json).map(|p| p.to_message()).unwrap_or_default();
@@ -1250,14 +1252,15 @@ impl Oracle {
                     continue;
                 }
                 self.known_hits.push(KnownHit {
-                    finding: "-".into(),
+                    finding: "C16-dmq-dedup-ignores-sender".into(),
                     clause: "buffered-contribution-lost".into(),
                     detail: format!(
                         "the valid signature of registered party {} for {} was delivered at step {delivery_step} before the round opened (buffered); the round is open now and the signature is not recorded",
                         short(&party_id), entity.label()),
                     step,
                     msg_id,
-                    dedup_trigger: false,
+                    producer,
+                    dedup_trigger: early_dedup_trigger,
                     foreign_copy_before: foreign_around,
                 });
             }
@@ -1281,7 +1284,15 @@ impl Oracle {
             {
                 let foreign_around = d.batch_junk
                     || w.deliveries.iter().any(|x| matches!(&x.msg.kind, MsgKind::Signature { signature_hex: h, claimed: c, .. } if h == signature_hex && *c != party_id));
-                self.c16_early.push((d.msg.id, *producer, entity.clone(), signed_message.clone(), signature_hex.clone(), d.step, foreign_around));
+                // trigger of the known finding C16-dmq-dedup-ignores-sender, as below
+                let last_start = w.restarts_at.iter().rev().find(|s| **s <= d.step).copied().unwrap_or(0);
+                let early_dedup_trigger = d.status == 0
+                    && w.deliveries[..di].iter().any(|x| {
+                        x.step > last_start
+                            && x.status == 0
+                            && matches!(&x.msg.kind, MsgKind::Signature { signature_hex: h, entity: e, claimed: c, .. } if h == signature_hex && e == entity && *c != party_id)
+                    });
+                self.c16_early.push((d.msg.id, *producer, entity.clone(), signed_message.clone(), signature_hex.clone(), d.step, foreign_around, early_dedup_trigger));
                 self.probe("c16_honest_deliveries_before_round_opened");
                 continue;
             }
@@ -1345,6 +1356,7 @@ impl Oracle {
                     if d.response.is_empty() { String::new() } else { format!("; response: {}", crate::world::first_line(&d.response)) }),
                 step,
                 msg_id: d.msg.id,
+                producer: *producer,
                 dedup_trigger,
                 foreign_copy_before: !same_payload_before.is_empty() || d.batch_junk,
             });
